@@ -108,7 +108,11 @@ def r1(ctx, prog):
                 why = "neither checks the multiplication nor forwards the pair to exactly one family member (calls: %s)" % [f.nodes[o].get("callee") for o in others]
             ctx.check(R, ok, site, "forwards (count,size) unchanged to %s" % (f.nodes[fw[0]]["callee"] if fw else "?") if ok else why, key="C06.R1:%s" % name)
     g = prog.fn("mi_count_size_overflow")
-    ok = any(True for _ in g.calls("mi_mul_overflow")) and all(g.cv(g.nodes[r]["val"]) in (0, 1) or rl.is_call(g, g.strip(g.nodes[r]["val"]), "mi_mul_overflow") for r in g.all(kind="ReturnStmt"))
+    # on the edge where mi_mul_overflow reports an overflow the function returns true (directly, by returning the call, or through a
+    # result variable)
+    ovf = [(p_, q) for p_, q, e, pol in rl.edges_with_fact(g, rl.fact_call_true(g, "mi_mul_overflow"))]
+    direct = any(rl.is_call(g, g.strip(g.nodes[r]["val"]), "mi_mul_overflow") for r in g.all(kind="ReturnStmt") if "val" in g.nodes[r])
+    ok = any(True for _ in g.calls("mi_mul_overflow")) and (direct or (bool(ovf) and all(rl.returns_only(g, q, 1, src=p_) for p_, q in ovf)))
     ctx.check(R, ok, g.where(), "mi_count_size_overflow multiplies with mi_mul_overflow", key="C06.R1:helper")
     m = prog.fn("mi_mul_overflow")
     ok = any(f2 for f2 in m.calls(("__builtin_umull_overflow", "__builtin_umulll_overflow", "__builtin_umul_overflow")))
